@@ -15,6 +15,7 @@ ATOM_SPECS = {
     "minLength": ("ex.str", "minLength: 2"), "maxLength": ("ex.str", "maxLength: 3"), "exactLength": ("ex.str", "exactLength: 2"),
     "pattern": ("ex.str", "pattern: ^a{2,3}$"), "in": ("ex.str", "in: [aa, aaa]"), "inNumbers": ("ex.num", "in: [2, 3]"),
     "containsAll": ("ex.str", "containsAll: [aa, aaa]"), "containsSome": ("ex.str", "containsSome: [aa, aaa]"),
+    "minInclusiveFine": ("ex.fine", "minInclusive: 2.0000001"), "maxExclusiveFine": ("ex.fine", "maxExclusive: 3.0000001"),
     "inHalves": ("ex.half", "in: [2.5, 3.5]"), "inIntsOnFractions": ("ex.frac", "in: [2, 3]"),
     "containsAllHalves": ("ex.half", "containsAll: [2.5, 3.5]"), "containsSomeHalves": ("ex.half", "containsSome: [2.5, 3.5]"),
     "minCount": ("ex.num", "minCount: 2"), "maxCount": ("ex.num", "maxCount: 2"), "exactCount": ("ex.num", "exactCount: 2"),
@@ -66,6 +67,7 @@ def data(rnd):
                 n[EX + "str"] = ["a" * v for v in S]
                 n[EX + "half"] = [v + 0.5 for v in S]
                 n[EX + "frac"] = [v + 0.7 for v in S]
+                n[EX + "fine"] = [v + 0.00000005 for v in S]
             if T:
                 n[EX + "num2"] = T
             nodes.append(n)
